@@ -253,6 +253,22 @@ pub fn run_c03(tier: Tier) -> i32 {
         ]),
         "C03",
     ));
+    // two competing blocks: one gets a notarization certificate (by votes or received), the other
+    // reaches its notar-fallback threshold on a notar vote, a fallback vote, in every order
+    let w3 = Arc::new(make_epoch(&[40, 30, 30]));
+    fams.push(PoolSlotSys::new(
+        "W3-two-blocks-cross-certificates",
+        w3.clone(),
+        1,
+        cat(vec![
+            votes(N, 1, 0, &[0, 1]),
+            votes(N, 1, 1, &[2]),
+            votes(NF, 1, 1, &[0, 1]),
+            votes(NF, 1, 0, &[2]),
+            vec![cert(CK::Notar, 1, 0, &[0, 1], &[])],
+        ]),
+        "C03",
+    ));
     if tier == Tier::Thorough {
         fams.push(PoolSlotSys::new(
             "K4-tight",
